@@ -1,20 +1,30 @@
-"""C07 contracts (first configuration family): generator -> bytes -> parser -> receiver, RateXData.__init__ cut by its
-contract with an if-then-else-merged post-state"""
-import math
-from pyvc.contract import contract
+"""C07: a generated data transmission is received back.  Functions under contract: TransmissionGenerator.generate_data_bursts /
+generate_full_data_transmission / generate_csbk_preambles / generate_data_header_burst, Transmission.process_packet /
+process_data / process_csbk / process_data_header / is_last_block / end_data_transmission / new_transmission, the observer
+fan-out; inlined: burst codec (C01), PDU codecs (C03); stubs: CRC bit-serial tail (C05), trellis decoder loop (C10)."""
+from pyvc.contract import contract, PathEnd
+from contracts import trellis as trellis_contracts
+from spec import crc as S
 from okdmr.dmrlib.transmission.transmission_generator import TransmissionGenerator as TG
 from okdmr.dmrlib.transmission.transmission import Transmission
 from okdmr.dmrlib.transmission.transmission_observer_interface import TransmissionObserverInterface
+from okdmr.dmrlib.transmission.transmission_types import TransmissionTypes
 from okdmr.dmrlib.etsi.layer2.burst import Burst
-import okdmr.dmrlib.etsi.layer2.pdu.rate12_data as r12
-from okdmr.dmrlib.etsi.layer2.pdu.rate12_data import Rate12Data, Rate12DataTypes
+from okdmr.dmrlib.etsi.layer2.pdu.rate12_data import Rate12Data
+from okdmr.dmrlib.etsi.layer2.pdu.rate34_data import Rate34Data
+from okdmr.dmrlib.etsi.layer2.pdu.rate1_data import Rate1Data
 from okdmr.dmrlib.etsi.layer2.pdu.data_header import DataHeader
+from okdmr.dmrlib.etsi.layer2.pdu.csbk import CSBK
+from okdmr.dmrlib.etsi.layer2.elements.csbk_opcodes import CsbkOpcodes
 from okdmr.dmrlib.etsi.layer2.elements.data_packet_formats import DataPacketFormats
+from okdmr.dmrlib.etsi.layer2.elements.data_types import DataTypes
 from okdmr.dmrlib.etsi.layer2.elements.sap_identifier import SAPIdentifier
 from okdmr.dmrlib.etsi.layer2.elements.full_message_flag import FullMessageFlag
 from okdmr.dmrlib.etsi.layer2.elements.resynchronize_flag import ResynchronizeFlag
-from okdmr.dmrlib.etsi.layer2.elements.crc_masks import CrcMasks
-from okdmr.dmrlib.etsi.crc.crc9 import CRC9
+from okdmr.dmrlib.etsi.fec.trellis import Trellis34
+
+RATE = {"Rate12": (Rate12Data, {True: (10, 6), False: (12, 8)}), "Rate34": (Rate34Data, {True: (16, 12), False: (18, 14)}), "Rate1": (Rate1Data, {True: (22, 18), False: (24, 20)})}
+# ETSI TS 102 361-1 table 8.1 "octets per data block": (per block, per last block) for confirmed / unconfirmed
 
 
 class Obs(TransmissionObserverInterface):
@@ -31,77 +41,103 @@ class Obs(TransmissionObserverInterface):
         self.ev.append(("voice_end", voice_header, list(blocks)))
 
 
-def _ite_int(z, a, b, width):
-    """bitwise if z then a else b on ints given as SInt/int (z: bit)"""
-    from pyvc.values import SInt, band, bxor
-    a, b = SInt.lift(a), SInt.lift(b)
-    return SInt([bxor(b.bit(i), band(z, bxor(a.bit(i), b.bit(i)))) for i in range(width)]).n()
+def geometry(L, per, last):
+    """independent fragmentation arithmetic: the smallest block count whose capacity holds L octets, and the padding"""
+    nb = 1
+    while (nb - 1) * per + last < L:
+        nb += 1
+    return nb, (nb - 1) * per + last - L
 
 
-def rate12_init_contract(self, data, packet_type=Rate12DataTypes.Undefined, dbsn=0, crc9=0, crc32=0):
-    """post-state of Rate12Data.__init__ with the two in-band zero tests merged instead of forked"""
-    from pyvc.values import SInt, SBits, bnot, s_ba2int, s_int_from_bytes
-    from pyvc.shadows import s_isinstance
-    self.data = data if s_isinstance(data, bytes) else data.tobytes()
-    Rate12Data.validate_packet_type(packet_type=packet_type, data_length=len(self.data))
-    self.dbsn = dbsn if s_isinstance(dbsn, int) else s_ba2int(dbsn)
-    self.packet_type = Rate12DataTypes(len(self.data))
-    self.crc32 = crc32 if s_isinstance(crc32, int) else s_int_from_bytes(crc32, byteorder="big")
-    crc9_in = crc9 if s_isinstance(crc9, int) else s_ba2int(crc9[::-1])
-    without = CRC9.calculate_from_parts(data=self.data, serial_number=self.dbsn, crc32=None, mask=CrcMasks.Rate12DataContinuation)
-    if isinstance(self.crc32, int):
-        calc = without if self.crc32 == 0 else CRC9.calculate_from_parts(data=self.data, serial_number=self.dbsn, crc32=self.crc32, mask=CrcMasks.Rate12DataContinuation)
+@contract("Transmission.generated_is_received", "okdmr.dmrlib.transmission.transmission_generator:TransmissionGenerator.generate_full_data_transmission", ["C07"],
+          stubs=["BitCrcRegister._process_bits", "Trellis34.points_to_tribits", "BPTC19696.encode", "BPTC19696.deinterleave_data_bits"])
+def generated_is_received(vc, rate, L, confirmed, preambles, symbolic):
+    cls, table = RATE[rate]
+    per, last = table[confirmed]
+    nb, pad = geometry(L, per, last)
+    if nb > 127 or pad > 31:  # not representable in the header's 7-bit blocks-to-follow / 5-bit pad octet count
+        raise PathEnd()
+    if symbolic or vc.mode == "native":
+        payload = vc.bytes_(L, "p")
     else:
-        c32 = SInt.lift(self.crc32)
-        nz = bnot(c32._is_zero())
-        with_ = CRC9.calculate_from_parts(data=self.data, serial_number=self.dbsn, crc32=c32.to_bytes(4, "big"), mask=CrcMasks.Rate12DataContinuation)
-        calc = _ite_int(nz, with_, without, 9)
-    if isinstance(crc9_in, int):
-        self.crc9 = calc if crc9_in <= 0 else crc9_in
-    else:
-        z = SInt.lift(crc9_in)._is_zero()
-        self.crc9 = _ite_int(z, calc, crc9_in, 9)
-    e = SInt.lift(self.crc9) == calc if not (isinstance(self.crc9, int) and isinstance(calc, int)) else (self.crc9 == calc)
-    self.crc9_ok = e
-
-
-@contract("Transmission.generated_is_received", "okdmr.dmrlib.transmission.transmission_generator:TransmissionGenerator.generate_full_data_transmission", ["C07"], stubs=["Rate12Data.__init__"])
-def generated_is_received(vc, L, confirmed, preambles):
-    payload = vc.bytes_(L, "p")
-    per, last = (10, 6) if confirmed else (12, 8)
-    nb = math.ceil(1 + (L - last) / per)
-    pad = (nb - 1) * per + last - L
+        payload = bytes((7 * i + 3) & 0xFF for i in range(L))  # long payloads: literal contents (block arithmetic is what varies)
+    cc = vc.uint(4, "cc")
     hdr = DataHeader(dpf=DataPacketFormats.DataPacketConfirmed if confirmed else DataPacketFormats.DataPacketUnconfirmed,
                      is_response_requested=confirmed, pad_octet_count=pad, sap_identifier=SAPIdentifier.ShortData,
                      llid_destination=vc.uint(24, "dst"), llid_source=vc.uint(24, "src"), full_message_flag=FullMessageFlag(1),
-                     blocks_to_follow=nb, resynchronize_flag=ResynchronizeFlag(0), send_sequence_number=0, fragment_sequence_number=8)
-    real = Rate12Data.__init__
-    import okdmr.dmrlib.etsi.crc.crc as _crc
-    real_bs = _crc.BitCrcRegister._process_bits
-    if vc.mode == "symbolic":
-        from contracts.crc import _bitserial_contract
-        Rate12Data.__init__ = rate12_init_contract
-        _crc.BitCrcRegister._process_bits = _bitserial_contract
-    try:
-        bursts = TG.generate_full_data_transmission(Rate12Data, payload, hdr, csbk_count=preambles, colour_code=1)
-        o = Obs()
-        tx = Transmission(o)
+                     blocks_to_follow=nb, resynchronize_flag=ResynchronizeFlag(0), send_sequence_number=0, fragment_sequence_number=8 if confirmed else 0)
+    bursts = TG.generate_full_data_transmission(cls, payload, hdr, csbk_count=preambles, colour_code=cc)
+    vc.prove("burst_count_is_preambles_plus_header_plus_blocks", len(bursts) == preambles + 1 + nb)
+    # preamble count-down: preamble k (0-based) is followed by (preambles - 1 - k) more preambles, the header and nb blocks
+    for k in range(min(preambles, len(bursts))):
+        pre = bursts[k].data
+        vc.prove("preamble_is_a_preamble_csbk", isinstance(pre, CSBK) and pre.csbko == CsbkOpcodes.PreambleCSBK)
+        vc.prove("preamble_counts_down_to_the_bursts_that_follow", vc.eq(pre.blocks_to_follow, (preambles - 1 - k) + 1 + nb))
+    o = Obs()
+    tx = Transmission(o)
+    if cls is Rate34Data:
+        trellis_contracts.GHOST["queue"] = []
         for b in bursts:
-            tx.process_packet(Burst.from_bytes(b.as_bytes()))
-    finally:
-        Rate12Data.__init__ = real
-        _crc.BitCrcRegister._process_bits = real_bs
+            if b.data_type == DataTypes.Rate34Data:
+                blk = b.data.as_bits()
+                t = Trellis34.bits_to_tribits(blk)
+                trellis_contracts.GHOST["queue"].append(dict(vc=vc, trib=t, points=Trellis34.tribits_to_points(t)))
+    k = 0
+    for b in bursts:
+        raw = b.as_bytes()
+        rx = Burst.from_bytes(raw)
+        if k < preambles:
+            vc.prove("received_preamble_counts_down", isinstance(rx.data, CSBK) and vc.eq(rx.data.blocks_to_follow, (preambles - 1 - k) + 1 + nb))
+        tx.process_packet(rx)
+        k += 1
     kinds = [e[0] for e in o.ev]
-    vc.prove("exactly_one_start_one_data_end", kinds == ["start", "data_end"])
-    blocks = [x for x in (o.ev[1][2] if len(o.ev) > 1 else []) if isinstance(x, Rate12Data)]
-    vc.prove("block_count", len(blocks) == nb)
+    vc.prove("exactly_one_started_and_one_data_ended", kinds == ["start", "data_end"] and o.ev[0][1] == TransmissionTypes.DataTransmission)
+    if kinds != ["start", "data_end"]:
+        return
+    ended_hdr, ended = o.ev[1][1], o.ev[1][2]
+    blocks = [x for x in ended if isinstance(x, cls)]
+    vc.prove("ended_with_all_data_blocks", len(blocks) == nb)
+    vc.prove("ended_with_the_header", isinstance(ended_hdr, DataHeader) and vc.eq(ended_hdr.pad_octet_count, pad) and vc.eq(ended_hdr.blocks_to_follow, nb))
     data = b""
     for x in blocks:
         data = data + x.data
-    vc.prove("data_is_payload_plus_announced_pad", vc.eq(data, payload + b"\x00" * pad))
+    vc.prove("data_is_payload_followed_by_the_announced_pad_octets", vc.eq(data, payload + bytes(pad)))
+    if blocks:
+        lastb = blocks[-1]
+        # B.3.9: 32-bit CRC over the padded data taken as 16-bit words, low octet first; carried least significant octet first
+        octs = S.byteswap16(list(data) if not hasattr(data, "v") else list(data.v))
+        bits = []
+        for x in octs:
+            bits += vc.bitlist(x, 8)
+        rem = vc.from_bits(S.poly_remainder_bits(bits, 0x04C11DB7, 32))
+        carried = vc.from_bits(sum([vc.bitlist(rem, 32)[8 * i:8 * i + 8] for i in (3, 2, 1, 0)], []))
+        vc.prove("trailing_crc32_matches_the_data", vc.eq(lastb.crc32, carried))
+        vc.prove("last_block_is_flagged_last", lastb.is_last_block())
     if confirmed:
         for i, x in enumerate(blocks):
             vc.prove("confirmed_block_crc9_ok", x.crc9_ok)
+            vc.prove("confirmed_block_is_typed_confirmed", x.is_confirmed())
 
 
-generated_is_received.shapes = lambda tier: [dict(L=L, confirmed=c, preambles=p) for L in (0, 5, 6, 7, 16, 20) for c in (False, True) for p in (0, 2)]
+def _gir_shapes(tier):
+    for rate, (cls, table) in RATE.items():
+        for confirmed in (False, True):
+            per, last = table[confirmed]
+            if tier == "thorough":
+                small = list(range(0, 2 * per + last + 2))
+                big = sorted(set(range(2 * per + last + 2, 1501, 7)) | {1266, 1267, 1499, 1500})
+            else:  # every block-boundary neighbourhood of the first three blocks, then a few long ones
+                small = sorted({0, 1, last - 1, last, last + 1, last + per - 1, last + per, last + per + 1, last + 2 * per, last + 2 * per + 1})
+                big = sorted({100, min(1500, 126 * per + last), min(1500, 126 * per + last + 1)})
+            for L in small:
+                for pre in ((0, 2) if tier == "quick" else (0, 1, 3, 16)):
+                    if tier == "quick" and pre != (0, 2)[L % 2]:
+                        continue
+                    yield dict(rate=rate, L=L, confirmed=confirmed, preambles=pre, symbolic=True)
+            for L in big:
+                yield dict(rate=rate, L=L, confirmed=confirmed, preambles=16 if L % 2 else 1, symbolic=False)
+
+
+generated_is_received.shapes = _gir_shapes
+generated_is_received.cost = 60
+generated_is_received.native_random = 30
